@@ -12,6 +12,17 @@ import (
 
 const maxInlineDepth = 6
 
+func hasLoop(fn *ssa.Function) bool {
+	for _, b := range fn.Blocks {
+		for _, s := range b.Succs {
+			if s.Dominates(b) {
+				return true
+			}
+		}
+	}
+	return false
+}
+
 func (f *Frame) setResults(v ssa.Value, res []T) {
 	sig := v.Type()
 	if tup, ok := sig.(*types.Tuple); ok {
@@ -54,6 +65,20 @@ func (f *Frame) doCall(v ssa.Value, ci ssa.CallInstruction) {
 		f.callStatic(v, fn, c.Args, args, ci.Pos())
 	case *ssa.MakeClosure:
 		if cf, ok := fn.Fn.(*ssa.Function); ok {
+			// a closure called where it is made: inlined with its free variables bound to the captured cells
+			if cf.Blocks != nil && f.depth < maxInlineDepth && len(cf.FreeVars) == len(fn.Bindings) && !hasLoop(cf) {
+				args := make([]T, len(c.Args))
+				for i, a := range c.Args {
+					args[i] = f.val(a)
+				}
+				f.pendingFree = fn.Bindings
+				res, ok := f.inlineCall(cf, args, ci.Pos())
+				f.pendingFree = nil
+				if ok {
+					f.setResults(v, res)
+					return
+				}
+			}
 			f.enc.note("%s: call of closure %s abstracted (results unconstrained)", f.fname, cf.Name())
 			f.havocMods(f.p.modsetOf(cf), nil)
 		}
@@ -256,6 +281,13 @@ func (f *Frame) inlineCall(fn *ssa.Function, args []T, pos token.Pos) ([]T, bool
 	}
 	sub.held = f.held
 	sub.recMeasure = f.recMeasure
+	if f.pendingFree != nil {
+		sub.freeBind = map[*ssa.FreeVar]ssa.Value{}
+		sub.freeFrom = f
+		for i, fv := range fn.FreeVars {
+			sub.freeBind[fv] = f.pendingFree[i]
+		}
+	}
 	sub.frameHook, sub.frameMapHook, sub.frameCallHook, sub.frameAppendHook = f.frameHook, f.frameMapHook, f.frameCallHook, f.frameAppendHook
 	res, st, path, ok := sub.run(args, f.st, f.curPath())
 	if !ok {
@@ -380,6 +412,27 @@ func (f *Frame) applyContract(v ssa.Value, con *Contract, fn *ssa.Function, args
 
 func (f *Frame) applyGhost(con *Contract, env map[string]tv, old State) {
 	for _, g := range con.Ghost {
+		if i := strings.Index(g.Src, "++="); i >= 0 {
+			// "#name[key] ++= slice": sequence-valued ghost, the bytes of the slice are appended with spec snoc
+			lhs, rhs := strings.TrimSpace(g.Src[:i]), strings.TrimSpace(g.Src[i+3:])
+			lb := strings.Index(lhs, "[")
+			if lb < 0 {
+				panic(trErr{"ghost ++= needs an indexed ghost map: " + g.Src})
+			}
+			base := strings.TrimSpace(lhs[:lb])
+			ke, err1 := parseExpr(strings.TrimSuffix(strings.TrimSpace(lhs[lb+1:]), "]"))
+			se, err2 := parseExpr(rhs)
+			if err1 != nil || err2 != nil {
+				panic(trErr{"bad ghost clause: " + g.Src})
+			}
+			tr := &Translator{f: f, env: env, cur: old, old: old}
+			key := tr.expr(ke).t
+			sl := tr.expr(se)
+			gt := tr.expr(&EGhost{base})
+			cur := stOr(f.enc, old, base, gt.t.Sort)
+			f.stSet(base, Store(cur, key, f.seqAppend(tr, Select(cur, key), sl, old)))
+			continue
+		}
 		// "#name += expr"
 		parts := strings.SplitN(g.Src, "+=", 2)
 		if len(parts) != 2 {
@@ -408,6 +461,55 @@ func (f *Frame) applyGhost(con *Contract, env map[string]tv, old State) {
 		cur := stOr(f.enc, old, name, SInt)
 		f.stSet(name, Add(cur, inc))
 	}
+}
+
+// constInt: value of a term that is an integer literal or simple constant arithmetic over literals.
+func constInt(t T) (int64, bool) {
+	s := strings.TrimSpace(t.S)
+	var a, b int64
+	if _, err := fmt.Sscanf(s, "(- %d %d)", &a, &b); err == nil {
+		return a - b, true
+	}
+	if _, err := fmt.Sscanf(s, "(+ %d %d)", &a, &b); err == nil {
+		return a + b, true
+	}
+	if n, err := fmt.Sscanf(s, "%d", &a); err == nil && n == 1 && !strings.ContainsAny(s, "( ") {
+		return a, true
+	}
+	return 0, false
+}
+
+// seqAppend: q followed by the elements of slice sl (read in state st), as applications of spec snoc. A slice of
+// constant length is unfolded; otherwise the result is an uninterpreted seqcat term with its unfoldings for 0..4.
+func (f *Frame) seqAppend(tr *Translator, q T, sl tv, st State) T {
+	sf, ok := f.p.specs["snoc"]
+	if !ok {
+		panic(trErr{"ghost ++= needs spec snoc(q <seq type>, b int)"})
+	}
+	stp, isSl := sl.ty.Underlying().(*types.Slice)
+	if !isSl {
+		panic(trErr{"ghost ++= needs a slice"})
+	}
+	es := f.p.sortOf(stp.Elem())
+	arr := f.p.sliceArray(stp.Elem())
+	inner := Select(stOr(f.enc, st, arr, ArrSort(SInt, ArrSort(SInt, es))), SPtr(sl.t))
+	elem := func(i int64) T { return atTerm(f.enc, es, inner, SOff(sl.t), IntLit(i)) }
+	chain := func(n int64) T {
+		acc := q
+		for i := int64(0); i < n; i++ {
+			acc = tr.specApp(sf, []tv{{acc, tr.goType(sf.Params[0].Type)}, {elem(i), tyInt}}).t
+		}
+		return acc
+	}
+	if n, ok := constInt(SLen(sl.t)); ok && n >= 0 && n <= 8 {
+		return chain(n)
+	}
+	fn := f.enc.declFun("seqcat_"+sortSuffix(q.Sort), []Sort{q.Sort, ArrSort(SInt, es), SInt, SInt}, q.Sort)
+	res := f.enc.define(f.sym("seqcat"), App(q.Sort, fn, q, inner, SOff(sl.t), SLen(sl.t)))
+	for n := int64(0); n <= 4; n++ {
+		f.enc.factAbout(res, Implies(Eq(SLen(sl.t), IntLit(n)), Eq(res, chain(n))))
+	}
+	return res
 }
 
 func resultNames(con *Contract, sig *types.Signature) []string {
